@@ -102,7 +102,7 @@ theorem step_pattern (f : Nat) (ih : IH f) : ∀ (ts : List Tok) (p : Pattern) (
   unfold pPattern at h
   split at h
   · simp at h; obtain ⟨rfl, rfl⟩ := h
-    exact ⟨by simpa [okP, Tok.wf] using hg.head, hg.tail⟩
+    exact ⟨by simpa [okP, Tok.wf, Tok.wfI] using hg.head, hg.tail⟩
   · ext_do h
     obtain ⟨p0, b, h1, ps, b2, h2, rfl, rfl⟩ := h
     obtain ⟨p1, p2⟩ := ih.pattern _ p0 b h1 hg.tail
@@ -131,8 +131,8 @@ theorem step_objVal (f : Nat) (ih : IH f) : ∀ (ts : List Tok) (v : Query) (res
   · simp at h2; obtain ⟨rfl, rfl⟩ := h2
     exact ⟨okOV_of_okQ3 e p1, p2⟩
 
-theorem wf_str {v : Bytes} (h : (Tok.str v).wf = true) : okLit v = true := h
-theorem wf_var {v : Bytes} (h : (Tok.var v).wf = true) : isVarName v = true := h
+theorem wf_str {v : Bytes} (h : (Tok.str v).wfI = true) : okLit v = true := h
+theorem wf_var {v : Bytes} (h : (Tok.var v).wfI = true) : isVarName v = true := h
 
 theorem okS_interp {ts : List Tok} (ps : List Part) (h1 : okParts ps = true) (h2 : partsShape ps = true)
     (h3 : FirstQ ts ps) (hg : Good (.strStart :: ts)) : okS (.interp ps) = true := by
@@ -160,7 +160,7 @@ theorem step_parts (f : Nat) (ih : IH f) : ∀ (ts : List Tok) (ps : List Part) 
     obtain ⟨ps2, b, h1, rfl, rfl⟩ := h
     obtain ⟨p1, p2, p3, p4⟩ := ih.parts _ ps2 b h1 hg.tail
     have hwf := hg.head
-    simp only [Tok.wf, Bool.and_eq_true] at hwf
+    simp only [Tok.wfI, Tok.wf, Bool.and_eq_true] at hwf
     refine ⟨by simp [okParts, okPart, hwf.1, hwf.2, p1], p2, ?_, ?_, ?_, ?_⟩
     · cases ps2 with
       | nil => rfl
